@@ -39,6 +39,10 @@ fn case(t: &mut Tape, info: &mut CaseInfo) -> Result<(), String> {
         let first = *t.pick(&[GameMode::Taiko, GameMode::Catch, GameMode::Mania]);
         map = map.convert(first, &mods).map_err(|e| e.to_string())?;
         info.label("source-already-converted");
+    } else if map.mode == GameMode::Osu && t.chance(1, 12) {
+        // the flag is a public field: an osu! map marked as a convert by hand must be refused by every entry point alike
+        map.is_convert = true;
+        info.label("convert-flag-set-by-hand");
     }
     if info.want_sample {
         info.sample = Some(json!({"map": spec.sample(), "source_mode": mode_name(map.mode), "is_convert": map.is_convert, "target": mode_name(target), "difficulty": dspec.describe(), "score": score.describe()}));
@@ -243,7 +247,7 @@ pub fn property() -> Property {
         id: "C07",
         subchecks: vec![SubCheck {
             name: "conversion-and-dispatch",
-            rule: "G-MAP of all four native modes (1/8 of osu maps pre-converted) x uniform target mode x mods incl. key mods/Random/HO/IN/MR in all representations x G-DIFF x score spec. Oracle: convert / convert_ref / convert_mut give == maps or the same error variant (failed convert_mut leaves the map unchanged); own mode => identity and Cow::Borrowed; Ok iff target==mode or un-converted osu; result has mode==target and is_convert; calculate_for_mode, strains_for_mode, GradualDifficulty::new_with_mode (drained), GradualPerformance::new_with_mode (stepped), Performance::try_mode / mode_or_ignore / <Mode>Performance::new(&src) all same-value-equal to the same call on the explicitly converted map; on impossible conversions every entry point refuses and try_mode returns the unchanged calculator. Non-trivial: osu source with >=3 objects incl. a slider and target != osu, or an error path from a non-osu/converted source.",
+            rule: "G-MAP of all four native modes (1/8 of osu maps pre-converted, 1/12 of the others with the public is_convert flag set by hand) x uniform target mode x mods incl. key mods/Random/HO/IN/MR in all representations x G-DIFF x score spec. Oracle: convert / convert_ref / convert_mut give == maps or the same error variant (failed convert_mut leaves the map unchanged); own mode => identity and Cow::Borrowed; Ok iff target==mode or un-converted osu; result has mode==target and is_convert; calculate_for_mode, strains_for_mode, GradualDifficulty::new_with_mode (drained), GradualPerformance::new_with_mode (stepped), Performance::try_mode / mode_or_ignore / <Mode>Performance::new(&src) all same-value-equal to the same call on the explicitly converted map; on impossible conversions every entry point refuses and try_mode returns the unchanged calculator. Non-trivial: osu source with >=3 objects incl. a slider and target != osu, or an error path from a non-osu/converted source.",
             quick: 40_000,
             thorough: 150_000,
             tape_len: 1500,
